@@ -245,13 +245,16 @@ class RefDevice:
         if genuine:
             st["keys"].append(codec.v3_session_key(self.key, nonce))
             st["hs_ok"] = True
-        self._ev(conn, "hs_reply", genuine=genuine, key_index=len(st["keys"]) - 1 if genuine else None)
+        hs_ev = self._ev(conn, "hs_reply", genuine=genuine, key_index=len(st["keys"]) - 1 if genuine else None)
         pre = b""
         if d.get("garbage_prefix"):
             pre = bytes.fromhex(d["garbage_prefix"])
             self._fire("garbage_prefix")
         total = pre + bytes(pkt)
         conn.send(total, lat=lat, cuts=self._cuts(d, len(total)))
+        hs_ev["end"] = len(conn.tx_stream)       # stream offset at which the reply is complete
+        if not genuine:
+            conn.hostile_until = max(conn.hostile_until, conn._last_sched)
         if d.get("dup"):
             self._fire("dup_hs_reply")
             conn.send(bytes(pkt), lat=lat)
